@@ -3,12 +3,20 @@
     transcription of the five extension documents.  Property theorems only; each is
     closed by [exact] of a lemma from Proofs/Layout*.v.
 
+    No theorem carries a known-finding hypothesis: the seven classes that used to be
+    excluded were repaired in /repo (e1de1bb, 970818d, d1aca14, a91c61b, 91d5aeb, dec6d3f,
+    8478633) and Model/KnownC11.v holds no classifier.
+
     Inputs that are external to rocfl are arguments constrained by boolean conditions:
     [inputs_ok c id dg]: id and delimiter are well-formed UTF-8 (Rust str), dg is a
-    lower-case hex string of the algorithm's length; [raw_wf r]: the same for the
-    strings of a config.json.  Unicode case mapping is part of [ustr]. *)
-From Rocfl Require Import Base.Bytes Generated.Consts Model.Layout Model.LayoutSpec Model.KnownC11
-  Proofs.LayoutFacts Proofs.LayoutMapFacts Proofs.LayoutPrefixFacts Proofs.LayoutOmitFacts
+    lower-case hex string of the algorithm's length, and - for 0006/0007 only - the case
+    information that comes with delimiter and id ([ustr]: char::to_lowercase of every
+    character, str::to_lowercase/to_uppercase of the string) obeys [unicode_ok], four
+    facts about Unicode and the Rust standard library (Model/Layout.v); [raw_wf r]:
+    well-formed strings in a config.json.  The check evaluates these conditions on
+    every generated input and reports an input that fails one. *)
+From Rocfl Require Import Base.Bytes Generated.Consts Model.Layout Model.LayoutSpec
+  Proofs.LayoutFacts Proofs.LayoutMapFacts Proofs.LayoutPrefixFacts Proofs.LayoutCaseFacts Proofs.LayoutOmitFacts
   Proofs.LayoutCfgFacts Proofs.LayoutMain Proofs.LayoutWitness.
 Open Scope N_scope.
 
@@ -31,41 +39,66 @@ Theorem C11_0004 : forall c id dg, c_ext c = E0004 -> cfg_ok c = true -> digest_
 Proof. exact map_0004_correct. Qed.
 Print Assumptions C11_0004.
 
+(** (for every id, also where lower-casing changes the length of a character or depends
+    on the position in a word: known finding c11-casefold-index until fix 91d5aeb) *)
 Theorem C11_0006 : forall c id dg, c_ext c = E0006 -> cfg_ok c = true ->
-  ustr_wf id = true -> ustr_wf (c_delim c) = true -> c11_casefold c id = false ->
+  ustr_wf id = true -> ustr_wf (c_delim c) = true -> unicode_ok (c_delim c) id = true ->
   refusal (Layout.map c id dg) = LayoutSpec.map c id dg.
 Proof. exact map_0006_correct. Qed.
 Print Assumptions C11_0006.
 
+(** the path of 0006 said without an algorithm ([occurs_at d s p k]: the k characters of
+    the id from position p on have the lower-case form of the delimiter): the id itself
+    when the delimiter does not occur; else what follows the RIGHT-MOST occurrence IN THE
+    ORIGINAL ID, which is not empty; a panic only for an id that ends with that
+    occurrence; never an error value *)
+Theorem C11_0006_meaning : forall c id dg, c_ext c = E0006 -> cfg_ok c = true ->
+  ustr_wf id = true -> ustr_wf (c_delim c) = true -> unicode_ok (c_delim c) id = true ->
+  let d := us_chars (c_delim c) in let s := us_chars id in
+  match Layout.map c id dg with
+  | Ok r => (r = us_bytes id /\ forall p k, ~ occurs_at d s p k) \/
+            (exists p k, occurs_at d s p k /\ r = text (skipn (p + k) s) /\ skipn (p + k) s <> [] /\
+                         (forall p' k', occurs_at d s p' k' -> (p' <= p)%nat) /\
+                         (forall k', occurs_at d s p k' -> (k <= k')%nat))
+  | Panic => exists p k, occurs_at d s p k /\ (p + k)%nat = List.length s /\
+                         (forall p' k', occurs_at d s p' k' -> (p' <= p)%nat)
+  | Err => False
+  end.
+Proof. exact map_0006_meaning. Qed.
+Print Assumptions C11_0006_meaning.
+
 (** (also for ids with control characters, a known finding until fix 970818d) *)
 Theorem C11_0007 : forall c id dg, c_ext c = E0007 -> cfg_ok c = true ->
   ustr_wf id = true -> ustr_wf (c_delim c) = true ->
-  c11_casefold c id = false ->
+  unicode_ok (c_delim c) id = true ->
   refusal (Layout.map c id dg) = LayoutSpec.map c id dg.
 Proof. exact map_0007_correct. Qed.
 Print Assumptions C11_0007.
 
-(** all five at once: for every validated configuration and every id outside the known
-    class (known_c11 = c11_casefold: 0006/0007 with a case mapping that changes UTF-8
-    lengths) the code returns the documented path, or refuses exactly the ids the
-    documents cannot map *)
+(** all five at once: for every validated configuration and EVERY id the code returns
+    the documented path, or refuses exactly the ids the documents cannot map *)
 Theorem C11_map_is_spec : forall c id dg,
-  cfg_ok c = true -> inputs_ok c id dg = true -> known_c11 c id = false ->
+  cfg_ok c = true -> inputs_ok c id dg = true ->
   refusal (Layout.map c id dg) = LayoutSpec.map c id dg.
-Proof. exact map_correct. Qed.
+Proof. exact map_is_spec. Qed.
 Print Assumptions C11_map_is_spec.
 
 Theorem C11_unmappable_never_mapped : forall c id dg,
-  cfg_ok c = true -> inputs_ok c id dg = true -> known_c11 c id = false ->
+  cfg_ok c = true -> inputs_ok c id dg = true ->
   LayoutSpec.map c id dg = Err -> forall p, Layout.map c id dg <> Ok p.
 Proof. exact unmappable_refused. Qed.
 Print Assumptions C11_unmappable_never_mapped.
 
 Theorem C11_mappable_mapped : forall c id dg p,
-  cfg_ok c = true -> inputs_ok c id dg = true -> known_c11 c id = false ->
+  cfg_ok c = true -> inputs_ok c id dg = true ->
   LayoutSpec.map c id dg = Ok p -> Layout.map c id dg = Ok p.
 Proof. exact mappable_mapped. Qed.
 Print Assumptions C11_mappable_mapped.
+
+(** map_object_id has no error channel: an id is mapped or the call panics *)
+Theorem C11_map_never_err : forall c id dg, Layout.map c id dg <> Err.
+Proof. exact map_never_err. Qed.
+Print Assumptions C11_map_never_err.
 
 (** ** the helpers *)
 
@@ -113,37 +146,77 @@ Theorem C11_0003_code_truncates : forall id dg, ustr_wf id = true -> is_ascii dg
 Proof. exact encapsulation_code. Qed.
 Print Assumptions C11_0003_code_truncates.
 
-(** the prefix removal of 0006/0007: byte-index code = character-level document *)
-Theorem C11_strip_prefix : forall d id,
-  ustr_wf d = true -> ustr_wf id = true -> us_chars d <> [] -> case_regular d id = true ->
+(** ** the prefix removal of 0006/0007 *)
+
+(** 0006 with a delimiter that has case: rfind_ignore_case (layout.rs:798-812, fix 91d5aeb)
+    is the documents' right-most occurrence ignoring case for EVERY id and delimiter, with
+    no condition on the case information except a non-empty lower-case form of the
+    delimiter *)
+Theorem C11_strip_prefix_0006_cased : forall d id,
+  ustr_wf id = true -> case_matters d = true -> lower_text (us_chars d) <> [] ->
+  refusal (strip_prefix_0006 d id) = omitted d id.
+Proof. exact strip_prefix_0006_cased. Qed.
+Print Assumptions C11_strip_prefix_0006_cased.
+
+Theorem C11_strip_prefix_0006 : forall d id,
+  ustr_wf d = true -> ustr_wf id = true -> us_chars d <> [] -> unicode_ok d id = true ->
+  refusal (strip_prefix_0006 d id) = omitted d id.
+Proof. exact strip_prefix_0006_correct. Qed.
+Print Assumptions C11_strip_prefix_0006.
+
+(** 0007 (ids of the documented range 0x20-0x7F): the byte index found in the lower-cased
+    id is the character position in the id *)
+Theorem C11_strip_prefix_0007 : forall d id,
+  ustr_wf d = true -> ustr_wf id = true -> us_chars d <> [] -> unicode_ok d id = true ->
+  forallb in_range (us_chars id) = true ->
   refusal (strip_prefix d id) = omitted d id.
 Proof. exact strip_prefix_correct. Qed.
-Print Assumptions C11_strip_prefix.
+Print Assumptions C11_strip_prefix_0007.
+
+(** what the documents' prefix removal (LayoutSpec.omit_prefix) means, without an algorithm *)
+Theorem C11_omit_prefix_meaning : forall d s,
+  match omit_prefix d s with
+  | Ok r => (r = s /\ forall p k, ~ occurs_at d s p k) \/
+            (exists p k, occurs_at d s p k /\ r = skipn (p + k) s /\ r <> [] /\
+                         (forall p' k', occurs_at d s p' k' -> (p' <= p)%nat) /\
+                         (forall k', occurs_at d s p k' -> (k <= k')%nat))
+  | Err => exists p k, occurs_at d s p k /\ (p + k)%nat = List.length s /\
+                       (forall p' k', occurs_at d s p' k' -> (p' <= p)%nat) /\
+                       (forall k', occurs_at d s p k' -> (k <= k')%nat)
+  | Panic => False
+  end.
+Proof. exact omit_prefix_meaning. Qed.
+Print Assumptions C11_omit_prefix_meaning.
+
+(** the documents say "case-insensitive" and no more.  LayoutSpec.v reads: same lower-case
+    form.  The narrower reading, character against character, gives the same remainder
+    whenever every lower-case form is one character (in Unicode all but U+0130) *)
+Theorem C11_case_readings_agree : forall d s, d <> [] ->
+  Forall (fun u => wf_char (u_low u) = true) d -> Forall (fun u => wf_char (u_low u) = true) s ->
+  after_last (lower_text d) s = after_last_simple d s.
+Proof. exact readings_agree. Qed.
+Print Assumptions C11_case_readings_agree.
 
 (** ** configurations: StorageLayout::new accepts exactly what the documents allow
     (extension name, tupleSize/numberOfTuples both zero or both non-zero, product <=
     digest length, bounds, non-empty delimiter, shortObjectRoot constraint, parameter
-    types and defaults) and reads the documented parameter values.  known_c11_cfg =
-    0007 without delimiter / without config.json, or a JSON array; numbers above 32 and
-    shortObjectRoot with a fully used digest are covered since fixes d1aca14, a91c61b *)
+    types and defaults) and reads the documented parameter values, for every form of
+    config.json: object, array (refused, fix 8478633), none (the defaults, for 0007 since
+    fix dec6d3f), not JSON.  [cfg_determined] is no finding: the documents do not say
+    whether the key extensionName may be left out, rocfl wants it for 0006/0007 *)
 Theorem C11_config : forall dbg e r,
-  raw_wf r = true -> cfg_determined e r = true -> known_c11_cfg e r = false ->
+  raw_wf r = true -> cfg_determined e r = true ->
   new_agrees (new dbg e r) (LayoutSpec.parse e r).
 Proof. exact new_correct. Qed.
 Print Assumptions C11_config.
 
 Theorem C11_config_accepts_iff_allowed : forall dbg e r,
-  raw_wf r = true -> cfg_determined e r = true -> known_c11_cfg e r = false ->
+  raw_wf r = true -> cfg_determined e r = true ->
   (exists c, new dbg e r = Ok c) <-> LayoutSpec.allowed e r = true.
 Proof. exact new_accepts_iff_allowed. Qed.
 Print Assumptions C11_config_accepts_iff_allowed.
 
-Theorem C11_config_never_panics : forall dbg e r,
-  raw_wf r = true -> cfg_determined e r = true -> known_c11_cfg e r = false -> new dbg e r <> Panic.
-Proof. exact new_never_panics. Qed.
-Print Assumptions C11_config_never_panics.
-
-(** for EVERY form of the configuration (also the array form and no config.json): new
+(** for EVERY configuration, with no side condition: new
     never panics, debug and release arithmetic agree (the product of two numbers <= 32
     cannot overflow), and an accepted 0003/0004 configuration obeys the documents' rules
     on the numbers *)
@@ -166,40 +239,63 @@ Theorem C11_accepted_config_is_ok : forall e r c, new true e r = Ok c -> cfg_ok 
 Proof. exact new_ok_cfg_ok. Qed.
 Print Assumptions C11_accepted_config_is_ok.
 
-(** ** the excluded classes are genuine defects of the modelled code (known findings
-    c11-casefold-index, c11-cfg-0007-defaults, c11-cfg-array) *)
-Theorem C11_known_casefold_kelvin_refuted :
-  both (cfg6 (au (b "edu/"))) kelvin_id [] = (Ok (b "u/x"), Ok (b "x")) /\
-  c11_casefold (cfg6 (au (b "edu/"))) kelvin_id = true /\ ustr_wf kelvin_id = true.
-Proof. exact casefold_kelvin. Qed.
-Print Assumptions C11_known_casefold_kelvin_refuted.
+(** ** the three classes repaired last (regression examples): the former witnesses of
+    c11-casefold-index, c11-cfg-0007-defaults, c11-cfg-array are agreements *)
+Example C11_fixed_casefold :
+  both (cfg6 (au (b "edu/"))) kelvin_id [] = (Ok (b "x"), Ok (b "x")) /\
+  both (cfg6 sigma_delim) sigma_id [] = (Ok (b "x"), Ok (b "x")) /\
+  both (cfg6 sharp_delim) sharp_id [] = (Ok (b "b"), Ok (b "b")) /\
+  both (cfg6 (au (b "edu/"))) idot_id [] = (Ok (b "xyz"), Ok (b "xyz")) /\
+  side (cfg6 (au (b "edu/"))) kelvin_id sha256_object_01 = (true, true) /\
+  side (cfg6 sigma_delim) sigma_id sha256_object_01 = (true, true) /\
+  side (cfg6 sharp_delim) sharp_id sha256_object_01 = (true, true) /\
+  side (cfg6 (au (b "edu/"))) idot_id sha256_object_01 = (true, true).
+Proof. exact fixed_casefold. Qed.
 
-Theorem C11_known_casefold_final_sigma_refuted :
-  both (cfg6 sigma_delim) sigma_id [] = (Ok (bs [97; 206; 163; 47; 120]), Ok (b "x")) /\
-  c11_casefold (cfg6 sigma_delim) sigma_id = true /\ ustr_wf sigma_id = true /\ ustr_wf sigma_delim = true.
-Proof. exact casefold_final_sigma. Qed.
-Print Assumptions C11_known_casefold_final_sigma_refuted.
+(** where the two readings of "case-insensitive" part (delimiter U+0130, id "x" "i" U+0307 "y") *)
+Example C11_case_readings_part :
+  both (cfg6 idot_delim) i_dot_id [] = (Ok (b "y"), Ok (b "y")) /\
+  side (cfg6 idot_delim) i_dot_id sha256_object_01 = (true, true) /\
+  after_last_simple (us_chars idot_delim) (us_chars i_dot_id) = None.
+Proof. exact readings_part_at_idot. Qed.
 
-Theorem C11_known_casefold_sharp_s_panics :
-  both (cfg6 sharp_delim) sharp_id [] = (Panic, Ok (b "b")) /\ c11_casefold (cfg6 sharp_delim) sharp_id = true.
-Proof. exact casefold_sharp_s_panics. Qed.
-Print Assumptions C11_known_casefold_sharp_s_panics.
+(** historical note: layout 0006 BEFORE fix 91d5aeb (a separate definition, not the model) *)
+Example C11_history_casefold_before_fix :
+  map_0006_before_fix (cfg6 (au (b "edu/"))) kelvin_id = Ok (b "u/x") /\
+  map_0006_before_fix (cfg6 sigma_delim) sigma_id = Ok (bs [97; 206; 163; 47; 120]) /\
+  map_0006_before_fix (cfg6 sharp_delim) sharp_id = Panic /\
+  LayoutSpec.map (cfg6 (au (b "edu/"))) kelvin_id [] = Ok (b "x") /\
+  LayoutSpec.map (cfg6 sigma_delim) sigma_id [] = Ok (b "x") /\
+  LayoutSpec.map (cfg6 sharp_delim) sharp_id [] = Ok (b "b").
+Proof. exact history_casefold_before_fix. Qed.
 
-Theorem C11_known_cfg_0007_defaults_refuted :
-  new true E0007 RawNone = Err /\ allowed E0007 RawNone = true /\
-  new true E0007 (obj (JStr (au (ext_name E0007))) JAbsent JAbsent JAbsent JAbsent JAbsent JAbsent JAbsent) = Err /\
-  allowed E0007 (obj (JStr (au (ext_name E0007))) JAbsent JAbsent JAbsent JAbsent JAbsent JAbsent JAbsent) = true.
-Proof. exact cfg_0007_defaults_refused. Qed.
-Print Assumptions C11_known_cfg_0007_defaults_refuted.
+Example C11_fixed_cfg_0007_defaults :
+  new_params_agree (new true E0007 RawNone) (parse E0007 RawNone) = true /\
+  allowed E0007 RawNone = true /\
+  new_params_agree (new true E0007 (obj (JStr (au (ext_name E0007))) JAbsent JAbsent JAbsent JAbsent JAbsent JAbsent JAbsent))
+                   (parse E0007 (obj (JStr (au (ext_name E0007))) JAbsent JAbsent JAbsent JAbsent JAbsent JAbsent JAbsent)) = true /\
+  allowed E0007 (obj (JStr (au (ext_name E0007))) JAbsent JAbsent JAbsent JAbsent JAbsent JAbsent JAbsent) = true /\
+  path_under (new true E0007 RawNone) (au (b "ns:12")) = Ok (b "000/000/012/12") /\
+  path_under (new true E0007 (obj (JStr (au (ext_name E0007))) JAbsent (JNum 2) JAbsent JAbsent JAbsent JAbsent JAbsent)) (au (b "urn:uuid:12345")) =
+    Ok (b "01/23/45/12345") /\
+  new true E0006 RawNone = Err /\ allowed E0006 RawNone = false /\
+  new true E0006 (obj (JStr (au (ext_name E0006))) JAbsent JAbsent JAbsent JAbsent JAbsent JAbsent JAbsent) = Err /\
+  allowed E0006 (obj (JStr (au (ext_name E0006))) JAbsent JAbsent JAbsent JAbsent JAbsent JAbsent JAbsent) = false.
+Proof. exact fixed_cfg_0007_defaults. Qed.
 
-Theorem C11_known_cfg_array_refuted :
-  is_accepted (new true E0004 (RawSeq [JStr (au (ext_name E0004)); JStr (au (b "md5")); JNum 2; JNum 2])) = true /\
-  allowed E0004 (RawSeq [JStr (au (ext_name E0004)); JStr (au (b "md5")); JNum 2; JNum 2]) = false.
-Proof. exact cfg_array_accepted. Qed.
-Print Assumptions C11_known_cfg_array_refuted.
+Example C11_fixed_cfg_array :
+  new true E0004 (RawSeq [JStr (au (ext_name E0004)); JStr (au (b "md5")); JNum 2; JNum 2]) = Err /\
+  allowed E0004 (RawSeq [JStr (au (ext_name E0004)); JStr (au (b "md5")); JNum 2; JNum 2]) = false /\
+  new true E0002 (RawSeq [JStr (au (ext_name E0002))]) = Err /\
+  new true E0003 (RawSeq [JStr (au (ext_name E0003)); JStr (au (b "md5")); JNum 2; JNum 2]) = Err /\
+  new true E0006 (RawSeq [JStr (au (ext_name E0006)); JStr (au (b ":"))]) = Err /\
+  new true E0007 (RawSeq [JStr (au (ext_name E0007)); JStr (au (b ":")); JNum 2; JNum 2]) = Err /\
+  new true E0007 (RawSeq []) = Err /\
+  is_accepted (new true E0004 (obj (JStr (au (ext_name E0004))) (JStr (au (b "md5"))) (JNum 2) (JNum 2) JAbsent JAbsent JAbsent JAbsent)) = true.
+Proof. exact fixed_cfg_array. Qed.
 
-(** ** the four repaired classes (regression examples): code model and documents agree on
-    the former witnesses, and the neighbouring allowed inputs are still accepted *)
+(** ** the four classes repaired earlier (regression examples): code model and documents
+    agree on the former witnesses, and the neighbouring allowed inputs are still accepted *)
 Example C11_fixed_0003_zero_tuples :
   both (cfg3 Sha256 0 0) (au (b "object-01")) sha256_object_01 = (Ok (b "object-01"), Ok (b "object-01")) /\
   both (cfg3 Sha256 0 0) horrible sha256_horrible =
@@ -207,7 +303,7 @@ Example C11_fixed_0003_zero_tuples :
   both (cfg3 Sha256 0 0) long101 sha256_long101 =
     (Ok (b "abcdefghijabcdefghijabcdefghijabcdefghijabcdefghijabcdefghijabcdefghijabcdefghijabcdefghijabcdefghij-5cc73e648fbcff136510e330871180922ddacf193b68fdeff855683a01464220"),
      Ok (b "abcdefghijabcdefghijabcdefghijabcdefghijabcdefghijabcdefghijabcdefghijabcdefghijabcdefghijabcdefghij-5cc73e648fbcff136510e330871180922ddacf193b68fdeff855683a01464220")) /\
-  side (cfg3 Sha256 0 0) (au (b "object-01")) sha256_object_01 = (true, true, false).
+  side (cfg3 Sha256 0 0) (au (b "object-01")) sha256_object_01 = (true, true).
 Proof. exact fixed_0003_zero_tuples. Qed.
 
 Example C11_fixed_0007_control_chars :
@@ -216,7 +312,7 @@ Example C11_fixed_0007_control_chars :
   both (cfg7 (au (b ":")) 3 3 true false) (au (bs [0; 58; 97])) [] = (Panic, Err) /\
   both (cfg7 (au (b ":")) 2 2 true false) edge_id [] =
     (Ok (bs [48; 48; 47; 32; 127; 47; 32; 127]), Ok (bs [48; 48; 47; 32; 127; 47; 32; 127])) /\
-  side (cfg7 (au (b ":")) 3 3 true false) ctrl_id sha256_object_01 = (true, true, false).
+  side (cfg7 (au (b ":")) 3 3 true false) ctrl_id sha256_object_01 = (true, true).
 Proof. exact fixed_0007_ctrl. Qed.
 
 Example C11_fixed_cfg_bounds :
@@ -243,7 +339,7 @@ Example C11_fixed_cfg_short_root :
   both (cfg4 Sha256 7 9 true) (au (b "object-01")) sha256_object_01 =
     (Ok (b "3c0ff42/40c1e11/6dba14c/7627f23/19b58aa/3d77606/d0d90df/c616160/8ac987d/4"),
      Ok (b "3c0ff42/40c1e11/6dba14c/7627f23/19b58aa/3d77606/d0d90df/c616160/8ac987d/4")) /\
-  new true E0004 (RawSeq [JStr (au (ext_name E0004)); JStr (au (b "md5")); JNum 2; JNum 16; JBool true]) = Err.
+  new true E0004 (obj (JStr (au (ext_name E0004))) (JStr (au (b "md5"))) (JNum 2) (JNum 16) (JBool true) JAbsent JAbsent JAbsent) = Err.
 Proof. exact fixed_cfg_short_root. Qed.
 
 (** ** non-vacuity: the hypotheses are met by the documents' own examples, on which the
@@ -255,7 +351,7 @@ Proof. exact doc_0002. Qed.
 Example C11_nonvacuous_0003 :
   both (cfg3 Sha256 3 3) horrible sha256_horrible =
     (Ok (b "487/326/d8c/%2e%2ehor%2frib%3ale-%24id"), Ok (b "487/326/d8c/%2e%2ehor%2frib%3ale-%24id")) /\
-  side (cfg3 Sha256 3 3) horrible sha256_horrible = (true, true, false).
+  side (cfg3 Sha256 3 3) horrible sha256_horrible = (true, true).
 Proof. exact doc_0003_ex1. Qed.
 
 Example C11_nonvacuous_0003_truncated :
@@ -267,7 +363,7 @@ Proof. exact doc_0003_long. Qed.
 Example C11_nonvacuous_0004 :
   both (cfg4 Md5 2 15 true) horrible md5_horrible =
     (Ok (b "08/31/97/66/fb/6c/29/35/dd/17/5b/94/26/77/17/e0"), Ok (b "08/31/97/66/fb/6c/29/35/dd/17/5b/94/26/77/17/e0")) /\
-  side (cfg4 Md5 2 15 true) horrible md5_horrible = (true, true, false).
+  side (cfg4 Md5 2 15 true) horrible md5_horrible = (true, true).
 Proof. exact doc_0004_ex2. Qed.
 
 Example C11_nonvacuous_0006 :
@@ -278,7 +374,7 @@ Example C11_nonvacuous_0006 :
     (Ok (b "/12345/x54xz321/s3/f8.05v"), Ok (b "/12345/x54xz321/s3/f8.05v")) /\
   both (cfg6 (au (b "edu/"))) (au (b "https://institution.EDU/3448793")) [] = (Ok (b "3448793"), Ok (b "3448793")) /\
   both (cfg6 (au (b ":"))) (au (b "urn:uuid:")) [] = (Panic, Err) /\
-  side (cfg6 (au (b "edu/"))) (au (b "https://institution.EDU/3448793")) sha256_object_01 = (true, true, false).
+  side (cfg6 (au (b "edu/"))) (au (b "https://institution.EDU/3448793")) sha256_object_01 = (true, true).
 Proof. exact doc_0006. Qed.
 
 Example C11_nonvacuous_0007 :
@@ -290,7 +386,7 @@ Example C11_nonvacuous_0007 :
   both (cfg7 (au (b "edu/")) 3 3 false false) (au (b "https://institution.edu/abc/edu/f8.05v")) [] = (Ok (b "f8./05v/000/f8.05v"), Ok (b "f8./05v/000/f8.05v")) /\
   both (cfg7 (au (b ":")) 3 3 true false) (au (b "urn:")) [] = (Panic, Err) /\
   both (cfg7 (au (b ":")) 3 3 true false) (mkS [mkU (bs [195; 169]) (bs [195; 169])] (bs [195; 169]) (bs [195; 137])) [] = (Panic, Err) /\
-  side (cfg7 (au (b "edu/")) 3 3 false false) (au (b "https://institution.edu/abc/edu/f8.05v")) sha256_object_01 = (true, true, false).
+  side (cfg7 (au (b "edu/")) 3 3 false false) (au (b "https://institution.edu/abc/edu/f8.05v")) sha256_object_01 = (true, true).
 Proof. exact doc_0007. Qed.
 
 Example C11_nonvacuous_config :
